@@ -8,6 +8,7 @@ instantiations and random paths beyond).
 
 import itertools
 import json
+import unicodedata
 import shutil
 
 from ..models import glob_ref
@@ -138,7 +139,10 @@ def generate(tier, seed):
 
 
 R_ALPHA = list("ab.x/_-") + ["*", "*", "**", "\\*", "\\\\", "\\a", "/", "+", "?", "[", "]", "(", ")", "{", "}", "|", "^", "$", " ",
-                              "é", "ü", "\n", "**/", "/**", "*."]
+                              "é", "ü", "\n", "**/", "/**", "*.",
+                              # the same letter in two Unicode spellings (precomposed, decomposed), a compatibility character: code
+                              # points match only themselves
+                              "e\u0301", "\u0301", "\u212b", "\u00c5", "ﬁ"]
 
 
 def run_case(case, ctx):
@@ -190,6 +194,11 @@ def run_case(case, ctx):
                     paths.append(p[:i] + rng.choice("ab/.*\\x\n") + p[i:])
                     paths.append(p + rng.choice("a/\n."))
                     paths.append(rng.choice("a/x") + p)
+            for p in list(paths):
+                for form in ("NFC", "NFD", "NFKC"):
+                    q = unicodedata.normalize(form, p)
+                    if q != p:
+                        paths.append(q)
             for p in paths:
                 if p:
                     check_pair(res, g, p, m(p), nn.matches(p), nw.matches(p))
